@@ -210,7 +210,21 @@ func (sp *simProc) simBatch(in, out string, keep, par bool, reps int) (*BatchRes
 	if par {
 		limit = 90 * time.Second
 	}
-	po := runProc(limit, simEnv(sp.b, racelog, procs), bin, args...)
+	env := simEnv(sp.b, racelog, procs)
+	if !par && sp.b.Instr != nil && sp.b.Instr.Seams["nproc"] > 0 {
+		// what the library is told about the processor count varies from batch
+		// file to batch file (the simulator itself always runs on one)
+		// (a function of the batch number recorded in the file, so that
+		// minimisation and replay see the same value)
+		var hdr struct {
+			Batch int `json:"batch"`
+		}
+		if data, err := os.ReadFile(in); err == nil {
+			json.Unmarshal(data, &hdr)
+		}
+		env = append(env, fmt.Sprintf("VSIM_PROCS=%d", []int{1, 2, 4, 16, 3, 8}[((hdr.Batch%6)+6)%6]))
+	}
+	po := runProc(limit, env, bin, args...)
 	defer func() {
 		ms, _ := filepath.Glob(racelog + ".*")
 		for _, m := range ms {
